@@ -181,6 +181,7 @@ func (o *functionOperator) Next(ctx context.Context) ([]model.StepVector, error)
 		}
 		return nil, nil
 	}
+	batchStart := o.currentStep
 	o.currentStep += o.step * int64(len(vectors))
 
 	scalarIndex := 0
@@ -210,10 +211,14 @@ func (o *functionOperator) Next(ctx context.Context) ([]model.StepVector, error)
 		// scalar() depends on number of samples per vector and returns NaN if len(samples) != 1.
 		// So need to handle this separately here, instead of going via call which is per point.
 		if o.funcExpr.Func.Name == "scalar" {
+			// The result is the only element of a label-less stream.
 			if len(vector.Samples) == 1 {
+				vector.SampleIDs[0] = 0
 				continue
 			}
 			if len(vector.Samples) == 0 {
+				// The timestamp of an empty step vector is not reliable.
+				vectors[batchIndex].T = batchStart + int64(batchIndex)*o.step
 				vectors[batchIndex].Samples = append(vector.Samples, math.NaN())
 				vectors[batchIndex].SampleIDs = append(vector.SampleIDs, 0)
 				continue
@@ -222,6 +227,7 @@ func (o *functionOperator) Next(ctx context.Context) ([]model.StepVector, error)
 			vectors[batchIndex].Samples = vector.Samples[:1]
 			vectors[batchIndex].SampleIDs = vector.SampleIDs[:1]
 			vector.Samples[0] = math.NaN()
+			vector.SampleIDs[0] = 0
 			continue
 		}
 
